@@ -368,17 +368,47 @@ def run(prog, rep, tier):
                 else:
                     cl.add(o[0])
             guard = None
+            chain = []
             for bb in sorted(b.live):
                 t = b.term(bb)
                 if t[0] == "switch" and len(t) > 4 and t[4] == "bool":
                     arms = {int(v): tb for v, tb in t[2]}
                     true_t = t[3] if 0 in arms else arms.get(1)
+                    false_t = arms.get(0) if 0 in arms else t[3]
                     if true_t is not None and true_t != bb and b.pred[true_t] == [bb] and b.dominates(true_t, w.bb) and bb in regions[name]:
                         v = var_of(b, t[1])
                         if v is not None:
                             guard = b.local_name(v)
-            seps.append((sorted(cl), guard))
+                        chain.append((b.local_name(v) if v is not None else None) or "<condition>")
+                    elif false_t is not None and false_t != bb and false_t != true_t and b.pred[false_t] == [bb] and b.dominates(false_t, w.bb) and bb in regions[name] and bb != pc.bb \
+                            and b.dominates(pc.target, bb):
+                        v = var_of(b, t[1])
+                        chain.append("not " + ((b.local_name(v) if v is not None else None) or "<condition>"))
+            seps.append((sorted(cl), guard, sorted(chain)))
         shapes[name] = sorted(map(str, seps))
+        # the separator follows *every* message: after the print call no path reaches the next
+        # iteration without passing the test of the separator flag, and from its true arm none
+        # without passing the write
+        sepw = [w for w in mine if any(o[0] == "arg" and (b.local_name(o[1]) or "") == "log_message_separator" for o in b.origins(w.args[0], through_calls=TH))]
+        for w in sepw:
+            gbb = None
+            for bb in sorted(regions[name]):
+                t = b.term(bb)
+                if t[0] == "switch" and len(t) > 4 and t[4] == "bool":
+                    arms = {int(v): tb for v, tb in t[2]}
+                    true_t = t[3] if 0 in arms else arms.get(1)
+                    v = var_of(b, t[1])
+                    if true_t is not None and v is not None and b.local_name(v) == "sepb_print" and b.dominates(true_t, w.bb):
+                        gbb = (bb, true_t)
+            if gbb is None:
+                continue
+            skip_test = sorted(h for h in hdrs if h in b.reachable(pc.target, {gbb[0]}) and gbb[0] != pc.target)
+            skip_write = sorted(h for h in hdrs if h in b.reachable(gbb[1], {w.bb}) and gbb[1] != w.bb)
+            rep.examined(R133, "%s|%s|every-message" % (PL, name), sample={"arm": name, "flag_test_block": gbb[0], "ways_past_the_flag_test": skip_test, "ways_past_the_write": skip_write})
+            if skip_test or skip_write:
+                rep.violation(R133, "%s|separator|%s|not-every-message" % (PL, name), "processing_loop: after %s some path reaches the next message without %s; the separator is then missing after some messages "
+                              "(e.g. after the last message of a file that does not end in a newline) while the other kinds of message always get it" % (
+                                  name, "testing the separator flag" if skip_test else "writing the separator although the flag is set"))
         rep.examined(R133, "%s|%s" % (PL, name), sample={"arm": name, "writes_after_print": seps})
     sep_shapes = {}
     for name, sh in shapes.items():
@@ -703,6 +733,39 @@ def run(prog, rep, tier):
     import printflush as _pf
     R1312 = rep.rule("R13.12", "every printer variant returns Ok only with its private buffer written out (C01 R1.7 analysis)")
     _pf.check(prog, rep, R1312, floor=24)
+
+    # ------------------------------------------------------------ R13.13 decorated multi-line messages are cut into pieces that keep every byte
+    # The prepend printers of evtx/journal messages write the message line by line, each line behind
+    # its own file/date fields.  The pieces have to be sub-slices of the message that together are the
+    # message.  An iterator that strips terminators (`lines()` also strips '\r'; `split`, `fields`,
+    # `words`, `trim*`) hands out pieces that are not: empty lines, carriage returns or blanks of the
+    # stored text would be missing from the decorated output only.
+    R1313 = rep.rule("R13.13", "the decorated evtx/journal printers cut the message with index ranges, never with a terminator-stripping iterator")
+    STRIP = ("Lines", "LinesWithTerminator?", "Split", "SplitN", "SplitReverse", "Fields", "FieldsWith", "Words", "SplitWhitespace", "SplitTerminator", "SplitAsciiWhitespace", "RSplit", "Graphemes")
+    n1313 = 0
+    for p_ in sorted(prog.facts.bodies):
+        if not p_.startswith(PR + "print_") or "{closure" in p_ or not ("evtx" in p_ or "journal" in p_) or "prepend" not in p_:
+            continue
+        pb_ = prog.body(p_)
+        n1313 += 1
+        bad_ = []
+        cuts_ = 0
+        for c in pb_.live_calls():
+            nm_ = (c.o or c.d).split("::")[-1]
+            st_ = (c.callee.get("self") or "")
+            base_ = st_.split("<")[0].split("::")[-1]
+            if c.o.endswith("Iterator::next") and base_ in STRIP:
+                bad_.append((base_ + "::next", c.line))
+            if nm_ in ("trim", "trim_end", "trim_start", "trim_with", "trim_end_with", "trim_start_with", "strip_suffix", "strip_prefix", "trim_ascii", "trim_ascii_end") and ("[u8]" in st_ or "str" in st_ or "ByteSlice" in c.o):
+                bad_.append((nm_, c.line))
+            if nm_ == "find_byte" or (nm_ == "index" and "Range" in str(c.callee.get("ga"))):
+                cuts_ += 1
+        rep.examined(R1313, p_, sample={"printer": p_.split("::")[-1], "index_cuts": cuts_, "terminator_stripping_calls": bad_})
+        if bad_:
+            rep.violation(R1313, p_ + "|stripping-iterator", "%s (line %d) takes the pieces of the message from %s, which drops bytes of the stored text (line terminators incl. '\\r', and with the usual empty-piece test whole empty lines); "
+                          "the decorated output minus its decoration is then not the undecorated output" % (p_.split("::")[-1], bad_[0][1], bad_[0][0]))
+    if n1313 < 4:
+        raise CheckerError("R13.13: only %d decorated evtx/journal printers found" % n1313)
 
     return rep.finish(
         "Static necessary-condition check of the decoration path: for all 8 flag combinations of all 4 dispatchers the selected variant writes, "
